@@ -26,8 +26,37 @@ def base(fe, pad, fk):
             'filter_kwargs': fk, 'pass_type': ('param', 'pass_type'), 'pad': pad}
 
 
+def sample_neg(rep, model):
+    """find_extrema is called on recordings as they are stored (also raw integer counts): the raw samples are searched with argmax / argmin as they are, never negated
+    (a negation wraps for unsigned types and at the lower rail of signed ones, which moves a trough that sits on the rail)"""
+    import ast
+    from . import common
+    rep.rule('SAMPLE-NEG', 'no function of bycycle.cyclepoints.extrema reachable from find_extrema applies a unary minus to raw sample values: peaks are the argmax and troughs the '
+                           'argmin of the signal itself (argmax(-x) is argmin(x) only where -x cannot wrap)')
+    n = 0
+    for q in sorted(common.reachable(model, ['find_extrema'])):
+        f = model.funcs[q]
+        if not f.mod.endswith('cyclepoints.extrema'):
+            continue
+        n += 1
+        hits = common.sample_arith(f.node, [p for p in f.params if p == 'sig' or p.startswith('sig_')])['neg']
+        if hits:
+            rep.violation('SAMPLE-NEG', f.name, f'{f.path}:{hits[0][0]} {f.name}', expected='the raw signal searched as it is',
+                          found='; '.join(t for _, t in hits[:3]) + ': wraps for unsigned integer recordings and at the lower rail of signed ones')
+        else:
+            rep.ok('SAMPLE-NEG', f.name, f'{f.path}:{f.node.lineno} {f.name}', found='no negation of sample values')
+    ex = ast.parse('def f(sig, a, b):\n    w = -sig[a:b]\n    return np.argmax(w) + a, -a\n').body[0]
+    got = common.sample_arith(ex, ['sig'])['neg']
+    if len(got) == 1 and got[0][1] == '-sig[a:b]':
+        rep.ok('SAMPLE-NEG', 'embedded example', 'sa/rules/c02.py', found='fires on the negated window, silent on the negated index', nontrivial=False)
+    else:
+        rep.unresolved('SAMPLE-NEG', 'embedded example', 'sa/rules/c02.py', f'the taint query no longer behaves as expected: {got}')
+    rep.floor('extremum-search functions scanned for sample negation', n, 1)
+
+
 def check(rep, model, tier):
     _doc_defaults(rep, model)
+    sample_neg(rep, model)
     rep.rule('FE-DEF', 'find_extrema == reference (sa/refspec/cyclepoints.py) for first_extrema in {peak, trough, None} x pad x filter options: counts of closed half-waves, '
                        'scanning loops, arg-extrema of the raw signal with the window start added back, un-padding, strict two-sided boundary on the original length, trimming')
     rep.rule('PROVENANCE', 'every argmax / argmin operand is a slice of the RAW signal (the parameter or its np.pad), never of the filtered signal; the crossings come from '
